@@ -7,7 +7,7 @@ From CGV Require Import Base.PyBase Base.PyVal Base.NxGraph Gen.HydroGen Resolve
 From CGV Require Import Hydro.GraphLemmas Hydro.Squash Hydro.SquashDefs Hydro.SquashProofs Hydro.SquashTotal Hydro.QuotientDefs Hydro.QuotientProofs
      Hydro.BangBonds Hydro.BangGraph.
 From CGV Require Import Compose.GraphAdj Compose.CutModel Compose.CutPos Compose.CutDisc Compose.CutTables Compose.CutSkeleton Compose.CutWf.
-From CGV Require Import Hydro.SquashTotalAny Hydro.ShareCut.
+From CGV Require Import Hydro.SquashTotalAny Hydro.ShareCut Hydro.QuotientAttrs.
 Import ListNotations.
 Open Scope Z_scope.
 
@@ -109,4 +109,106 @@ Proof.
   specialize (H _ Hin). cbn [snd] in H. unfold wf_templateb in H. apply andb_true_iff in H as [H1 H2]. split; [now apply nodupz_NoDup|].
   intros u v d He. rewrite forallb_forall in H2. specialize (H2 _ He). cbn [fst snd] in H2. apply andb_true_iff in H2 as [A B].
   split; now apply CutPos.zmem_In.
+Qed.
+
+(** ---- the atoms keep their attributes: a surviving atom of the squashed graph and its image in the graph of the
+    molecule's own cut carry the molecule's payload (element, charge, aromatic, ...: every key that is not one of
+    the resolver's own, nor hcount / contraction) *)
+Definition lists_fn (g : graph) (key : pystr) (k : Z) : list pyval :=
+  match nattrs g k with Some a => match aget key a with Some (VList l) => l | _ => [] end | None => [] end.
+Lemma typed_lists_of g : typed_g g -> lists_of g (lists_fn g (S "fragid")) (lists_fn g (S "mapping")).
+Proof.
+  intros T k a H. destruct (T k a H) as [[l1 L1] [l2 L2]]. unfold lists_fn. rewrite H, L1, L2. auto.
+Qed.
+Lemma node_get_nattrs g k key : node_get g k key = match nattrs g k with Some a => aget key a | None => None end.
+Proof. unfold node_get, nattrs. destruct (gfind k g); reflexivity. Qed.
+
+Definition same_payload (C D : cut) (orig : Z -> Z) : Prop :=
+  forall x key v, In x (flat C) -> aget key (payload C x) = Some v -> aget key (payload D (orig x)) = Some v.
+
+Theorem share_vs_cut_attrs C D L aa gs' gd orig g' : wf_cut C -> wf_cut D ->
+  skeleton C aa gs' -> skeleton D aa gd -> expands C D L orig -> same_payload C D orig ->
+  typed_g gs' -> hnum_g gs' -> squash_atoms (gmap (bangify L) gs') = Ok g' ->
+  forall y key v, In y (node_keys g') -> aget key (payload C (atom_of C y)) = Some v ->
+    ~ In key reserved -> key <> S "hcount" -> key <> S "contraction" ->
+    node_get g' y key = Some v /\ node_get gd (pi_cut C D orig y) key = Some v.
+Proof.
+  intros WC WD SkC SkD X SP T HN Q y key v Hy Hp Nr Nh Nc.
+  pose proof (cut_skeleton_wf C WC aa gs' SkC) as Wf. set (gs := gmap (bangify L) gs') in *.
+  pose proof (wf_graph_gmap (bangify L) _ Wf) as Wg. fold gs in Wg.
+  destruct (squash_quotient gs g' Wg Q) as (_ & K & _ & _).
+  assert (Hys : In y (node_keys gs)) by (rewrite K in Hy; apply filter_In in Hy; tauto).
+  unfold gs in Hys. rewrite node_keys_gmap in Hys. apply has_node_keys in Hys.
+  destruct (sk_onto C WC aa gs' SkC y Hys) as (x & Fx & <-). rewrite atom_of_phi in Hp by (try assumption; exact (wc_nodup C WC)).
+  assert (Rk : key <> S "fragid" /\ key <> S "mapping" /\ key <> S "bonding").
+  { unfold reserved in Nr. cbn [In] in Nr. repeat split; intros ->; apply Nr; tauto. }
+  destruct Rk as (N1 & N2 & N3).
+  pose proof (squash_keeps_attrs gs g' _ _ Wg (typed_lists_of gs (typed_g_gmap _ _ T)) (hnum_g_gmap _ _ HN) Q) as Kp.
+  destruct (sk_attrs _ _ _ SkC x Fx) as (_ & _ & _ & PC).
+  pose proof (PC key v Hp Nr (fun _ => Nh)) as G1.
+  destruct (sk_attrs _ _ _ SkD (orig x) (ex_into _ _ _ _ X x Fx)) as (_ & _ & _ & PD).
+  pose proof (PD key v (SP x key v Fx Hp) Nr (fun _ => Nh)) as G2.
+  split; [|rewrite pi_cut_phi by (try assumption; exact (wc_nodup C WC)); exact G2].
+  rewrite node_get_nattrs. apply has_node_keys in Hy. apply has_node_gfind in Hy as [n Gn].
+  assert (Na : nattrs g' (phi C x) = Some (na n)) by (unfold nattrs; rewrite Gn; reflexivity).
+  rewrite Na. destruct (Kp _ _ Na) as (a0 & G0 & K0). rewrite (K0 key N1 N2 Nc Nh).
+  unfold gs in G0. rewrite nattrs_gmap in G0. destruct (nattrs gs' (phi C x)) as [a1|] eqn:E1; [|discriminate]. inversion G0; subst a0.
+  rewrite aget_Fa_other by exact N3. rewrite node_get_nattrs, E1 in G1. exact G1.
+Qed.
+
+(** what the two runs of share_vs_cut_resolver establish *)
+Lemma cut_runs C D L aa fdC BC fdD BD :
+  wf_cut C -> templates_ok C fdC -> is_base C BC -> wf_dict fdC ->
+  wf_cut D -> templates_ok D fdD -> is_base D BD ->
+  (aa = true -> forall x, In x (flat C) ->
+     (exists e, aget (S "element") (payload C x) = Some e) /\ exists h, aget (S "hcount") (payload C x) = Some (VInt h)) ->
+  (aa = true -> forall x, In x (flat D) ->
+     (exists e, aget (S "element") (payload D x) = Some e) /\ exists h, aget (S "hcount") (payload D x) = Some (VInt h)) ->
+  exists gs' fgs gd fgd,
+    (st <- resolve_disconnected (fdmap (bangify L) fdC) BC ;; bonding_step true aa BC (fst st) (snd st)) = Ok (gmap (bangify L) gs', fgs) /\
+    (st <- resolve_disconnected fdD BD ;; bonding_step true aa BD (fst st) (snd st)) = Ok (gd, fgd) /\
+    skeleton C aa gs' /\ skeleton D aa gd /\ adj_nodup gs' /\ typed_g gs'.
+Proof.
+  intros WC TC IC WdC WD TD ID HaC HaD.
+  destruct (cut_bonding_skeleton C WC fdC TC BC IC aa HaC) as (m1 & fg1 & gs' & fg2 & E1 & E2 & SkC).
+  destruct (cut_bonding_skeleton D WD fdD TD BD ID aa HaD) as (n1 & fh1 & gd & fgd & F1 & F2 & SkD).
+  destruct (disconnected_total C WC fdC TC BC IC) as (m1' & fg1' & E1' & I). rewrite E1 in E1'. inversion E1'; subst m1' fg1'.
+  assert (Htab : tables_of fg1 = Ok (tables C)) by (rewrite (i_tables _ _ _ _ I), firstn_all; reflexivity).
+  assert (Adj : adj_nodup gs') by (eapply adj_nodup_bonding; [eapply adj_nodup_disconnected; exact E1|exact E2]).
+  assert (Len : length gs' = length m1).
+  { rewrite <- (map_length nk gs'), <- (map_length nk m1). change (map nk gs') with (node_keys gs'). change (map nk m1) with (node_keys m1).
+    rewrite (sk_keys _ _ _ SkC), (i_keys _ _ _ _ I), off_total. reflexivity. }
+  exists gs', (fgmap (bangify L) fg2), gd, fgd. split; [|split; [|split; [|split; [|split]]]]; try assumption.
+  - rewrite (resolve_bang_like_dollar L aa fdC BC m1 fg1 E1), E2; [reflexivity|].
+    intros s0 Hs. rewrite Htab in Hs. inversion Hs; subst s0. now apply tables_bang_free.
+  - rewrite F1. cbn [bind fst snd]. exact F2.
+  - apply typed_inv_typed_g. eapply bonding_step_typed_any; [|exact E2|exact Len]. eapply resolve_disconnected_typed; eauto.
+Qed.
+
+(** [share_vs_cut_resolver_atoms]: ... and the atoms are the same atoms: under every key of the molecule's payload
+    (besides the resolver's own keys, hcount and contraction) a surviving atom of the squashed graph and its image
+    in the graph of the molecule's own cut carry the molecule's value *)
+Theorem share_vs_cut_resolver_atoms C D L aa orig fdC BC fdD BD :
+  wf_cut C -> templates_ok C fdC -> is_base C BC -> wf_dict fdC ->
+  wf_cut D -> templates_ok D fdD -> is_base D BD ->
+  (aa = true -> forall x, In x (flat C) ->
+     (exists e, aget (S "element") (payload C x) = Some e) /\ exists h, aget (S "hcount") (payload C x) = Some (VInt h)) ->
+  (aa = true -> forall x, In x (flat D) ->
+     (exists e, aget (S "element") (payload D x) = Some e) /\ exists h, aget (S "hcount") (payload D x) = Some (VInt h)) ->
+  expands C D L orig -> same_payload C D orig ->
+  exists gs fgs gd fgd,
+    (st <- resolve_disconnected (fdmap (bangify L) fdC) BC ;; bonding_step true aa BC (fst st) (snd st)) = Ok (gs, fgs) /\
+    (st <- resolve_disconnected fdD BD ;; bonding_step true aa BD (fst st) (snd st)) = Ok (gd, fgd) /\
+    (hnum_g gs -> forall g', squash_atoms gs = Ok g' ->
+       forall y key v, In y (node_keys g') -> aget key (payload C (atom_of C y)) = Some v ->
+         ~ In key reserved -> key <> S "hcount" -> key <> S "contraction" ->
+         node_get g' y key = Some v /\ node_get gd (pi_cut C D orig y) key = Some v).
+Proof.
+  intros WC TC IC WdC WD TD ID HaC HaD X SP.
+  destruct (cut_runs C D L aa fdC BC fdD BD WC TC IC WdC WD TD ID HaC HaD) as (gs' & fgs & gd & fgd & R1 & R2 & SkC & SkD & Adj & T).
+  exists (gmap (bangify L) gs'), fgs, gd, fgd. split; [exact R1|]. split; [exact R2|]. intros HN g' Q.
+  apply (share_vs_cut_attrs C D L aa gs' gd orig g' WC WD SkC SkD X SP T); [|exact Q].
+  intros i a H. assert (H' : nattrs (gmap (bangify L) gs') i = Some (Fa (bangify L) a)) by (rewrite nattrs_gmap, H; reflexivity).
+  pose proof (HN i _ H') as Y. unfold hnum in *. change squash_min_attr with (S "hcount") in *.
+  rewrite aget_Fa_other in Y by exact hcount_ne. exact Y.
 Qed.
